@@ -35,6 +35,9 @@ type LoopSpec struct {
 	MaxIter int
 	// MinIter > 0: a symbolic range loop is not treated as exhausted before that many iterations.
 	MinIter int
+	// Exhaust, when set, says whether a symbolic range loop may be exhausted in this state (a rule that knows the
+	// ranged sequence to be the longer one forbids it until the other's end was met).
+	Exhaust func(st *State) bool
 }
 
 type Hooks struct {
@@ -802,7 +805,7 @@ func (in *Interp) execLoop(loop ast.Stmt, st *State, label string) []result {
 			enter = append(enter, s)
 		default:
 			// range over something symbolic: it may be exhausted or not
-			if spec == nil || s.iterCnt[loop] >= spec.MinIter {
+			if (spec == nil || s.iterCnt[loop] >= spec.MinIter) && (spec == nil || spec.Exhaust == nil || spec.Exhaust(s)) {
 				exit(s.clone())
 			}
 			enter = append(enter, s)
